@@ -254,9 +254,19 @@ struct static_array  // NOLINT(fuchsia-multiple-inheritance) : multiple inherita
 		);
 	}
 
-	constexpr static_array(decay_type&& other, allocator_type const& alloc) noexcept
-	: array_alloc{alloc}, ref(std::exchange(other.base_, nullptr), other.extensions()) {
-		std::move(other).layout_mutable() = typename static_array::layout_type(typename static_array::extensions_type{});  // = {};  careful! this is the place where layout can become invalid
+	constexpr static_array(decay_type&& other, allocator_type const& alloc) noexcept(multi::allocator_traits<allocator_type>::is_always_equal::value)
+	: array_alloc{alloc}, ref(
+		(alloc == other.get_allocator())
+			?std::exchange(other.base_, nullptr)
+			:array_alloc::allocate(static_cast<typename multi::allocator_traits<allocator_type>::size_type>(other.num_elements()))  // storage cannot change hands between unequal allocators
+		,
+		other.extensions()
+	) {
+		if(this->alloc() == other.get_allocator()) {
+			std::move(other).layout_mutable() = typename static_array::layout_type(typename static_array::extensions_type{});  // = {};  careful! this is the place where layout can become invalid
+		} else {  // move element by element into the storage of the given allocator; `other` keeps its (moved-from) elements and storage
+			construct_or_release_([&] { array_alloc::uninitialized_move_n(other.data_elements(), other.num_elements(), this->data_elements()); });
+		}
 	}
 
 	constexpr explicit static_array(decay_type&& other) noexcept
@@ -1285,7 +1295,7 @@ struct array : static_array<T, D, Alloc> {
 	friend BOOST_MULTI_HD constexpr auto move(array& self) -> decltype(auto) { return std::move(self); }
 	friend BOOST_MULTI_HD constexpr auto move(array&& self) -> decltype(auto) { return std::move(self); }
 
-	array(array&& other, typename array::allocator_type const& alloc) noexcept : static_array<T, D, Alloc>{std::move(other), alloc} {
+	array(array&& other, typename array::allocator_type const& alloc) noexcept(multi::allocator_traits<typename array::allocator_type>::is_always_equal::value) : static_array<T, D, Alloc>{std::move(other), alloc} {
 		assert(this->stride() != 0);
 	}
 	array(array&& other) noexcept : array{std::move(other), other.get_allocator()} {
@@ -1308,9 +1318,24 @@ struct array : static_array<T, D, Alloc> {
 	}
 
 #ifndef NOEXCEPT_ASSIGNMENT
-	auto operator=(array&& other) noexcept -> array& {
+	auto operator=(array&& other) noexcept(multi::allocator_traits<typename array::allocator_type>::propagate_on_container_move_assignment::value || multi::allocator_traits<typename array::allocator_type>::is_always_equal::value) -> array& {
 		if(this == std::addressof(other)) {
 			return *this;
+		}
+		if constexpr(!multi::allocator_traits<typename array::allocator_type>::propagate_on_container_move_assignment::value && !multi::allocator_traits<typename array::allocator_type>::is_always_equal::value) {
+			if(this->alloc() != other.alloc()) {  // storage cannot change hands between unequal allocators: move element by element
+				clear();
+				this->base_ = this->static_::array_alloc::allocate(static_cast<typename multi::allocator_traits<typename array::allocator_type>::size_type>(other.num_elements()));
+				this->layout_mutable() = other.layout();
+				try {
+					this->static_::array_alloc::uninitialized_move_n(other.data_elements(), other.num_elements(), this->data_elements());
+				} catch(...) {
+					this->deallocate();
+					this->layout_mutable() = typename array::layout_type(typename array::extensions_type{});
+					throw;
+				}
+				return *this;
+			}
 		}
 		clear();
 		this->base_ = other.base_;
@@ -1324,6 +1349,11 @@ struct array : static_array<T, D, Alloc> {
 	}
 
 	auto operator=(array const& other) -> array& {
+		if constexpr(multi::allocator_traits<typename array::allocator_type>::propagate_on_container_copy_assignment::value) {
+			if(this != &other && this->alloc() != other.alloc()) {
+				clear();  // the storage made by the current allocator cannot be kept under (or released through) the incoming one
+			}
+		}
 		if(array::extensions() == other.extensions()) {
 			if(this == &other) {
 				return *this;
